@@ -34,14 +34,18 @@ fn short(rng: &mut Rng, w: u16, multiline: bool) -> String {
     let len = match rng.below(8) { 0 => 0, 1 => w as u64, 2 => w as u64 + 1, _ => rng.below(w as u64 + 2) };
     let mut s: String = (0..len).map(|_| (b'a' + rng.below(26) as u8) as char).collect();
     if multiline && rng.chance(1, 5) { let at = rng.below(s.len() as u64 + 1) as usize; s.insert(at, '\n'); }
+    if rng.chance(1, 10) { let at = rng.below(s.len() as u64 + 1) as usize; s.insert_str(at, *rng.pick(&["\x1b[32m", "\x1b[0m"])); }
     s
 }
 
 pub fn gen_case(rng: &mut Rng, bottom: bool) -> Case {
     let w = *rng.pick(&[6u16, 10, 14, 20]);
     let h = *rng.pick(&[16u16, 24, 40]);
-    let hz = if rng.chance(1, 3) { *rng.pick(&[1u8, 20]) } else { 0 };
+    let hz = if rng.chance(1, 2) { *rng.pick(&[1u8, 1, 20, 255]) } else { 0 };
     let n = rng.range(3, 30) as usize;
+    // after a burst that exhausts the refresh limiter (20 draws) the next few operations are the ones whose
+    // bookkeeping must not depend on whether a draw was skipped: finish, texts, drop, println, clear
+    let mut hot = 0u32;
     let mut ops = Vec::new();
     let mut nbars = 0usize;
     let mut alive: Vec<bool> = Vec::new();      // not dropped
@@ -51,7 +55,13 @@ pub fn gen_case(rng: &mut Rng, bottom: bool) -> Case {
     for _ in 0..n {
         let live: Vec<usize> = (0..nbars).filter(|&k| alive[k]).collect();
         let anchors: Vec<usize> = (0..nbars).filter(|&k| alive[k] && member[k]).collect();
-        let r = rng.below(30);
+        let mut r = rng.below(30);
+        if hz != 0 && hot == 0 && !live.is_empty() && rng.chance(1, 8) {
+            let k = *rng.pick(&live);
+            for _ in 0..rng.range(21, 28) { ops.push(MOp::Bar(k, BOp::Tick)); }
+            hot = rng.range(3, 7) as u32;
+        }
+        if hot > 0 { hot -= 1; r = *rng.pick(&[5u64, 12, 13, 13, 14, 16, 17, 17, 18, 19, 20, 21, 23, 10, 22, 28]); }
         let op = if nbars == 0 || r < 5 {
             let loc = if anchors.is_empty() { rng.below(3) as u8 } else { rng.below(5) as u8 };
             let arg = match loc { 1 | 2 => *rng.pick(&[0usize, 1, 2, 5, usize::MAX >> 1]), 3 | 4 => *rng.pick(&anchors), _ => 0 };
@@ -97,7 +107,7 @@ pub fn encode(c: &Case) -> String {
 
 fn show_rows(rows: &[String]) -> String { rows.iter().map(|r| r.chars().map(|c| (c as u32).to_string()).collect::<Vec<_>>().join(".")).collect::<Vec<_>>().join("|") }
 fn wrap(line: &str, w: usize) -> Vec<String> {
-    let cs: Vec<char> = line.chars().collect();
+    let cs: Vec<char> = crate::bar::plain(line).chars().collect();
     if cs.is_empty() { return vec![String::new()]; }
     cs.chunks(w).map(|c| c.iter().collect::<String>().trim_end().to_string()).collect()
 }
@@ -203,7 +213,7 @@ pub fn run_case(c: &Case) -> (String, String) {
         let mut at = 0usize;
         // trailing blank rows are invisible in a snapshot: blank log lines at the very end cannot be checked
         let mut checkable = logs.len();
-        while checkable > 0 && logs[checkable - 1].is_empty() { checkable -= 1; }
+        while checkable > 0 && crate::bar::plain(&logs[checkable - 1]).is_empty() { checkable -= 1; }
         for l in &logs[..checkable] {
             let chunks = wrap(l, w);
             let found = (at..rows.len()).find(|&i| i + chunks.len() <= rows.len() && (0..chunks.len()).all(|j| rows[i + j] == chunks[j]));
